@@ -20,7 +20,8 @@ LEVEL = 'exploration'
 RULE = ('cases = C01\'s random G-PIT programs and mask assignments (+ programs whose first layer '
         'is excluded from the search, + one layer invoked twice on inputs of equal / different '
         'size) x cost specification (each of params, params_no_bias, ops, ops_no_bias, '
-        'gap8_latency[2D] alone, or all as a dictionary) x full_cost on/off, discrete_cost=True; '
+        'gap8_latency[2D] alone, or all as a dictionary; in half of the cases re-assigned after the '
+        'masks were pruned) x full_cost on/off, discrete_cost=True; '
         'plus the all-open initial state (continuous == discrete == original).  Non-trivial: at '
         'least one mask element pruned and the program contains a non-sequential construct '
         '(cat/add/flatten-with-spatial/depthwise/repeated layer/fixed layer) or a hardware spec; '
@@ -179,6 +180,11 @@ def run_case(case, ctx):
     mrng = random.Random(case['seed'] + 5)
     assign = pitlib.apply_channel_masks(pit, mrng, case['mask_mode'])
     expect = c01.assign_time_masks(pit, mrng, case['time_style'])
+    if case['seed'] % 2 == 1:
+        # the specification is (re-)assigned when the masks are already pruned: the cost functions
+        # must still be the ones of the seed layer kinds (seeded defect C04-A)
+        pit.cost_specification = specs
+        ctx.cls('spec-reassigned-after-masks')
     try:
         exported = pit.export()
         exported.eval()
